@@ -122,6 +122,8 @@ type Ctx struct {
 	Funs  map[string]FunDecl // uninterpreted functions
 	FunsOrder []string
 	true_, false_ *Term
+	rangeMemo  map[int][3]uint64
+	structMemo map[int]*Term
 }
 
 type FunDecl struct {
@@ -1219,4 +1221,98 @@ func (t *Term) Eval(env map[int]uint64, memo map[int]uint64) (uint64, bool) {
 	}
 	memo[t.ID] = r
 	return r, true
+}
+
+// ---------------------------------------------------------------- counters: BV -> Int without bv2int
+
+// URange returns an unsigned value range of t when it can be derived structurally (constants,
+// ite, zero-extension, non-overflowing additions); used to convert "counter" terms to integers
+// without the expensive bv2int.
+func (c *Ctx) URange(t *Term) (lo, hi uint64, ok bool) {
+	if c.rangeMemo == nil {
+		c.rangeMemo = map[int][3]uint64{}
+	}
+	if r, seen := c.rangeMemo[t.ID]; seen {
+		return r[0], r[1], r[2] == 1
+	}
+	defer func() {
+		okv := uint64(0)
+		if ok {
+			okv = 1
+		}
+		c.rangeMemo[t.ID] = [3]uint64{lo, hi, okv}
+	}()
+	if t.Sort.K != KBV {
+		return 0, 0, false
+	}
+	switch t.Op {
+	case OConst:
+		return t.U, t.U, true
+	case OIte:
+		l1, h1, ok1 := c.URange(t.Args[1])
+		l2, h2, ok2 := c.URange(t.Args[2])
+		if !ok1 || !ok2 {
+			return 0, 0, false
+		}
+		if l2 < l1 {
+			l1 = l2
+		}
+		if h2 > h1 {
+			h1 = h2
+		}
+		return l1, h1, true
+	case OZExt:
+		return c.URange(t.Args[0])
+	case OBvAdd:
+		l1, h1, ok1 := c.URange(t.Args[0])
+		l2, h2, ok2 := c.URange(t.Args[1])
+		if !ok1 || !ok2 {
+			return 0, 0, false
+		}
+		m := mask(t.Sort.W)
+		if h1 > m-h2 { // may wrap
+			return 0, 0, false
+		}
+		return l1 + l2, h1 + h2, true
+	case OVar:
+		if t.Sort.W <= 16 {
+			return 0, mask(t.Sort.W), true
+		}
+	}
+	return 0, 0, false
+}
+
+// Bv2IntSmart converts a bit-vector term to an integer term; counter-like terms (sums of ite
+// over constants that provably do not wrap) are converted structurally into pure integer
+// arithmetic, everything else goes through bv2int.
+func (c *Ctx) Bv2IntSmart(a *Term, signed bool) *Term {
+	_, hi, ok := c.URange(a)
+	if !ok || (signed && a.Sort.W <= 64 && hi >= uint64(1)<<(a.Sort.W-1)) || hi > 1<<40 {
+		return c.Bv2Int(a, signed)
+	}
+	return c.bv2intStruct(a)
+}
+
+func (c *Ctx) bv2intStruct(a *Term) *Term {
+	if c.structMemo == nil {
+		c.structMemo = map[int]*Term{}
+	}
+	if r, ok := c.structMemo[a.ID]; ok {
+		return r
+	}
+	var r *Term
+	switch a.Op {
+	case OConst:
+		r = c.IntC(int64(a.U))
+	case OIte:
+		r = c.Ite(a.Args[0], c.bv2intStruct(a.Args[1]), c.bv2intStruct(a.Args[2]))
+	case OZExt:
+		r = c.bv2intStruct(a.Args[0])
+	case OBvAdd:
+		r = c.Add(c.bv2intStruct(a.Args[0]), c.bv2intStruct(a.Args[1]))
+	default:
+		r = c.Bv2Nat(a)
+	}
+	c.structMemo[a.ID] = r
+	return r
 }
